@@ -62,6 +62,9 @@ def build_harness(tags="verif", race=False, name="vh"):
     cmd = ["go", "build", "-tags", tags, "-o", out]
     if race:
         cmd.insert(2, "-race")
+    if os.environ.get("VERIF_COVER"):
+        # maintenance only (bin/coverage): which go-car functions do the checks execute at all?
+        cmd[2:2] = ["-cover", "-coverpkg=github.com/ipld/go-car/...,github.com/ipld/go-car/v2/...,github.com/ipld/go-car/cmd/..."]
     cmd.append(".")
     p = run(cmd, cwd=hdir, timeout=900)
     if p.returncode != 0:
@@ -214,7 +217,9 @@ def build_car():
         if os.path.exists(p):
             sums.update(open(p).read().splitlines())
     open(os.path.join(scratch(), "car.sum"), "w").write("\n".join(sorted(s for s in sums if s.strip())) + "\n")
-    p = run(["go", "build", "-modfile", mf, "-o", out, "./car"], cwd=os.path.join(REPO, "cmd"), timeout=900)
+    cov = ["-cover", "-coverpkg=github.com/ipld/go-car/...,github.com/ipld/go-car/v2/...,github.com/ipld/go-car/cmd/..."] \
+        if os.environ.get("VERIF_COVER") else []
+    p = run(["go", "build"] + cov + ["-modfile", mf, "-o", out, "./car"], cwd=os.path.join(REPO, "cmd"), timeout=900)
     if p.returncode != 0:
         raise Inconclusive("car CLI build failed:\n" + p.stdout[-3000:])
     return out
